@@ -177,3 +177,96 @@ def rewrite_adapter_lambda(module, name, keyword="decoder"):
     def restore():
         obj._decode = old
     return restore, {"fstr": t1.n, "join": t2.n}
+
+
+def _pure_expr(e):
+    """expression that can be evaluated eagerly without side effects or exceptions: names, constants, bit/arith operators"""
+    if isinstance(e, (ast.Name, ast.Constant)):
+        return True
+    if isinstance(e, ast.BinOp) and isinstance(e.op, (ast.BitAnd, ast.BitOr, ast.BitXor, ast.LShift, ast.RShift, ast.Add, ast.Sub, ast.Mult)):
+        return _pure_expr(e.left) and _pure_expr(e.right)
+    if isinstance(e, ast.UnaryOp) and isinstance(e.op, (ast.Invert, ast.USub, ast.UAdd)):
+        return _pure_expr(e.operand)
+    return False
+
+
+class SafeIfConv(IfConv):
+    """if-conversion restricted to branches whose arms assign pure bit/arith expressions to local names (CRC-style bit loops):
+    semantics-preserving wherever it applies, so it can be offered to every function of a module."""
+    @staticmethod
+    def _simple(stmts):
+        names = IfConv._simple(stmts)
+        if names is None:
+            return None
+        for s_ in stmts:
+            if not _pure_expr(s_.value):
+                return None
+        return names
+
+    def visit_If(self, node):
+        self.generic_visit(node)
+        if not node.orelse and not node.body:
+            return node
+        a, b = self._simple(node.body), self._simple(node.orelse)
+        if a is None or b is None or not (a or b) or not _pure_expr(node.test):
+            return node
+        return IfConv.visit_If(self, node)
+
+
+def safe_if_convert_module(module, skip=()):
+    """offers SafeIfConv to every function and method defined in `module` (from its current source); returns (restore, {name: count})"""
+    import types
+    undo, done = [], {}
+    targets = []
+    for name, obj in list(vars(module).items()):
+        if isinstance(obj, types.FunctionType) and obj.__module__ == module.__name__:
+            targets.append((module, name, obj))
+        elif isinstance(obj, type) and obj.__module__ == module.__name__:
+            for mname, m in list(vars(obj).items()):
+                raw = m.__func__ if isinstance(m, (staticmethod, classmethod)) else (m.fget if isinstance(m, property) else m)
+                if isinstance(raw, types.FunctionType):
+                    targets.append((obj, mname, raw))
+    for owner, name, raw in targets:
+        if name in skip or raw.__code__.co_filename.startswith("<symx"):
+            continue
+        try:
+            tree = ast.parse(textwrap.dedent(inspect.getsource(raw)))
+        except (OSError, TypeError, SyntaxError, IndentationError):
+            continue
+        t = SafeIfConv()
+        t.visit(tree)
+        if t.n == 0:
+            continue
+        try:
+            restore, counts = rewrite_with(owner, name, lambda tr: SafeIfConv().visit(tr))
+            undo.append(restore)
+            done[f"{getattr(owner, '__name__', owner)}.{name}"] = t.n
+        except Exception:
+            continue
+
+    def restore_all():
+        for u in reversed(undo):
+            u()
+    return restore_all, done
+
+
+def rewrite_with(owner, name, transform):
+    fn = owner.__dict__[name] if isinstance(owner, type) else getattr(owner, name)
+    wrapper = type(fn) if isinstance(fn, (staticmethod, classmethod, property)) else None
+    raw = fn.__func__ if isinstance(fn, (staticmethod, classmethod)) else (fn.fget if isinstance(fn, property) else fn)
+    tree = ast.parse(textwrap.dedent(inspect.getsource(raw)))
+    tree.body[0].decorator_list = []
+    tree = StripAnnotations().visit(tree)
+    tree = transform(tree)
+    tree = ast.fix_missing_locations(tree)
+    g = raw.__globals__
+    g["__symx_ite"] = ite
+    ns = {}
+    exec(compile(tree, f"<symx rewrite of {raw.__qualname__}>", "exec"), g, ns)
+    new = ns[raw.__name__]
+    new.__qualname__ = raw.__qualname__
+    setattr(owner, name, wrapper(new) if wrapper else new)
+
+    def restore():
+        setattr(owner, name, fn)
+    return restore, {}
